@@ -213,7 +213,13 @@ def r1_format(src, item, ed, opts):
         if n["func"] == "::alloc::__export::must_use":
             inner = src.text(*n["range"])
             if "::alloc::fmt::format(" in inner:
-                ed.replace(n["range"][0], n["range"][1], "vx_fmt()", "R1", subsume=True)
+                # `format!("{x}")` of ONE variable is that variable's Display text, a function of the value
+                # (format_display = "vx_display": the prelude function standing for it); anything else is opaque
+                m = re.search(r'format_args!\("\{0\}",(\w+)\)', re.sub(r"\s+", "", inner))
+                if m and opts.get("format_display"):
+                    ed.replace(n["range"][0], n["range"][1], f"{opts['format_display']}({m.group(1)})", "R1", subsume=True)
+                else:
+                    ed.replace(n["range"][0], n["range"][1], "vx_fmt()", "R1", subsume=True)
                 ed.count("R1")
     for n in nodes_of(item, "macro"):
         if n["name"] in ("format", "std::format"):
@@ -963,7 +969,7 @@ def r40_and_then(src, item, ed, opts):
         cn = clos.get(tuple(ca["range"]))
         if cn is None or len(cn["inputs"]) != 1:
             continue
-        body = src.text(*cn["body"])
+        body = re.sub(r'"(?:[^"\\\\]|\\\\.)*"', '""', src.text(*cn["body"]))
         if "?" in body or re.search(r"\breturn\b", body):
             raise Unsupported("R40: `?`/`return` inside an and_then / map_or closure")
         pat = cn["inputs"][0]["text"]
@@ -989,6 +995,7 @@ def _norm_ws(t):
 def r41_map_collect(src, item, ed, opts):
     """`X.into_iter().map(|P| E).collect()` -> `{ let src = X; let mut out = Vec::new(); let mut i = 0;
     while i < src.len() { let P = src[i]; out.push(E); i += 1; } out }` for X a vector of Copy items
+    (`X.iter().map(..)` over a slice or vector: `let P = &src[i]`)
     (map_collect=[{n=0, invariant=.., src=.., out=.., i=..}]): what map + collect into a Vec is by definition;
     X and E stay in place, so rewrites inside them still apply"""
     clos = {tuple(c["range"]): c for c in nodes_of(item, "closure")}
@@ -1001,7 +1008,7 @@ def r41_map_collect(src, item, ed, opts):
         if not mp or mp["method"] != "map" or len(mp["args"]) != 1 or tuple(mp["args"][0]["range"]) not in clos:
             continue
         ii = mcs.get(tuple(mp["receiver"]))
-        if not ii or ii["method"] != "into_iter" or ii["args"]:
+        if not ii or ii["method"] not in ("into_iter", "iter") or ii["args"]:
             continue
         sites.append((n, mp, ii, clos[tuple(mp["args"][0]["range"])]))
     for sp in opts.get("map_collect", []):
@@ -1013,14 +1020,14 @@ def r41_map_collect(src, item, ed, opts):
         n, mp, ii, cn = sites[k]
         if len(cn["inputs"]) != 1:
             raise Unsupported("R41 expects a one-parameter closure")
-        body = src.text(*cn["body"])
+        body = re.sub(r'"(?:[^"\\\\]|\\\\.)*"', '""', src.text(*cn["body"]))
         if "?" in body or re.search(r"\breturn\b", body):
             raise Unsupported("R41: `?`/`return` inside the map closure")
         pat = cn["inputs"][0]["text"]
         v, out, i = sp.get("src", "vx_src"), sp.get("out", "vx_out"), sp.get("i", "vx_i")
         inv = clause("invariant", sp.get("invariant")) + clause("decreases", sp.get("decreases", f"{v}.len() - {i}"))
         ed.insert(n["range"][0], f"{{ let {v} = ", "R41", prio=-(n["range"][1] - n["range"][0]))
-        ed.replace(ii["receiver"][1], cn["body"][0], f"; let mut {out} = Vec::new(); let mut {i}: usize = 0; {sp.get('before', '')} while {i} < {v}.len() {inv} {{ let {pat} = {v}[{i}]; {out}.push(", "R41")
+        ed.replace(ii["receiver"][1], cn["body"][0], f"; let mut {out}{(': ' + sp['out_ty']) if sp.get('out_ty') else ''} = Vec::new(); let mut {i}: usize = 0; {sp.get('before', '')} while {i} < {v}.len() {inv} {{ let {pat} = {'&' if ii['method'] == 'iter' else ''}{v}[{i}]; {out}.push(", "R41")
         ed.replace(cn["body"][1], n["range"][1], f"); {i} += 1; {sp.get('body_end', '')} }} {sp.get('after', '')} {out} }}", "R41")
         ed.count("R41")
 
